@@ -253,6 +253,11 @@ def r09_2(chk, sd, dx):
         gd = [e for e in gev.events if e.kind == "store" and (e.target.key().startswith("$g[") or e.target.key().startswith("<g@"))]
         from .generic import flat_of, stack_columns
         okg = len(gd) == 3 and all(any(e.target.key().endswith(f"[(slice None None None), {k}]") and flat_of(e.value).key() == f"sht.grid_cartesian[{k}]" for e in gd) for k in range(3))
+        if len(gd) == 1 and gd[0].loops and gd[0].loops[-1].kind == "enumerate" and gd[0].loops[-1].lo in (None, P.const(0)) \
+                and gd[0].loops[-1].iter is not None and gd[0].loops[-1].iter.key() == "sht.grid_cartesian":
+            # for k, comp in enumerate(sht.grid_cartesian): g[:, k] = comp.flatten()  - every component into the column of its own number
+            i = gd[0].loops[-1].index
+            okg = gd[0].target.key().endswith(f"[(slice None None None), {i.key()}]") and flat_of(gd[0].value).key() == f"sht.grid_cartesian[{i.key()}]"
         if not gd:
             # the direction array built in one go: column_stack / c_ / stack(axis=1) of the flattened components
             gdefs = [v for k, v in gev.defs.items() if k[0] == "local" and k[1] == "g"]
